@@ -302,6 +302,59 @@ func c13(c *core.Ctx) {
 		}
 	}
 
+	rO := c.Rule("C13.offsets", "the byte offsets of a leaf into the original document (Skeleton.LeafStart / LeafEnd) are read only where the same node is known not to have been rewritten (RawBytes == nil on that path): a node written by an earlier op of the same patch carries its bytes in RawBytes and its offsets are stale", 2)
+	{
+		_, sst := p.StructOf(pkgPatch, "Skeleton")
+		sf := core.StructFields(sst)
+		offs := map[*types.Var]bool{sf["LeafStart"]: true, sf["LeafEnd"]: true}
+		rawF := sf["RawBytes"]
+		if rawF == nil || sf["LeafStart"] == nil || sf["LeafEnd"] == nil {
+			core.Failf("Skeleton.LeafStart/LeafEnd/RawBytes not found")
+		}
+		n := 0
+		for _, f := range p.FuncsIn(pkgPatch) {
+			if f.Decl.Body == nil {
+				continue
+			}
+			fi := f.Info()
+			for _, body := range core.Bodies(f.Decl) {
+				var fl *core.Flow
+				for _, a := range core.Accesses(fi, body, offs, false) {
+					if a.Write {
+						continue
+					}
+					n++
+					c.Touch(f)
+					if fl == nil {
+						fl = core.NewFlow(p, fi, body)
+					}
+					base := core.ExprStr(a.Sel.X)
+					l, ok := fl.Locate(a.Node)
+					fresh := false
+					if ok {
+						for _, ft := range fl.FactsAt(l) {
+							be, isB := ft.Expr.(*ast.BinaryExpr)
+							if !isB || !core.IsNilIdent(fi, be.Y) {
+								continue
+							}
+							sx, isSel := core.Unparen(be.X).(*ast.SelectorExpr)
+							if !isSel || core.FieldOf(fi, sx) != rawF || core.ExprStr(sx.X) != base {
+								continue
+							}
+							if (be.Op == token.NEQ && !ft.Truth) || (be.Op == token.EQL && ft.Truth) {
+								fresh = true
+							}
+						}
+					}
+					rO.Check(fresh, f.Key+":"+base+"."+a.Field.Name(), a.Node.Pos(), "read only for a node that still lives in the original document", "Skeleton."+a.Field.Name()+" of "+base+" is read without knowing that the node was not rewritten (RawBytes == nil): after an earlier op of the same patch appended or rewrote the element its offsets are stale, so a decision based on them (width, position) is wrong - e.g. REMOVE_VAL skips the element it should remove and still reports success")
+				}
+			}
+		}
+		if n == 0 {
+			rO.Bad(pkgPatch+":leaf-offsets", token.NoPos, "no read of the leaf offsets found")
+		}
+	}
+
 	rA := c.Rule("C13.atomic", "ApplyWithCondition evaluates the condition before the first op and returns a nil body with every error; PatchFields and applyPatchExpiredOne store the patched body only after ApplyWithCondition returned nil", 4)
 	{
 		f := c.Fn(pkgPatch + ".ApplyWithCondition")
